@@ -63,8 +63,8 @@ def cases(tier, seed):
         yield {"kernel": "lib_downsample", "tfactor": tf, "seed": int(seed) * 1009 + 9100 + i, "tier": tier}
     for nch in (9, 10, 12, 16):
         yield {"kernel": "lib_subband", "nchans": nch, "reps": reps, "seed": int(seed) * 1009 + 9000 + nch, "tier": tier}
-    for i, (nch, nsub) in enumerate(((48, 1), (64, 2), (64, 4))):
-        yield {"kernel": "lib_reader_reuse", "nchans": nch, "nsub": nsub, "seed": int(seed) * 1009 + 9300 + i, "tier": tier}
+    for i, (nch, nsub, nbands) in enumerate(((48, 1, 5), (64, 2, 12), (64, 4, 24), (64, 32, 5), (104, 52, 32))):
+        yield {"kernel": "lib_reader_reuse", "nchans": nch, "nsub": nsub, "nbands": nbands, "seed": int(seed) * 1009 + 9300 + i, "tier": tier}
 
 
 def _build(kern, ns, nch, dt, rng, fr):
@@ -261,7 +261,9 @@ def _lib_reader_reuse(case, ctx):
         fil.remove_zerodm(outz, gulp=gulp, **kw)
         tim = np.array(fil.collapse(gulp=gulp, **kw).data, dtype=np.float64)
         fil.subband(150.0, int(case["nsub"]), outs, gulp=4096, **kw)
-        res = (bp.tobytes(), sigfile.parse_file(outz)[2], tim.tobytes(), sigfile.parse_file(outs)[2])
+        with np.errstate(all="ignore"):
+            cube = np.asarray(fil.fold(0.25, 10.0, nbins=16, nints=2, nbands=int(case.get("nbands", 5)), gulp=gulp, **kw).data)
+        res = (bp.tobytes(), sigfile.parse_file(outz)[2], tim.tobytes(), sigfile.parse_file(outs)[2], cube.tobytes())
         os.unlink(outz); os.unlink(outs)
         return res
 
@@ -271,7 +273,7 @@ def _lib_reader_reuse(case, ctx):
         ctx.violation("wrong-result:Filterbank.bandpass", "band-pass of a fresh reader at one thread is neither the per-channel sum nor the mean", dict(case))
         return
     fil = FilReader(path)
-    names = ("bandpass", "remove_zerodm", "collapse", "subband")
+    names = ("bandpass", "remove_zerodm", "collapse", "subband", "fold")
     for t in (16, 8, 2, 1, 3, 12, 16, 1):
         ctx.evaluated(); ctx.count("kernel:lib_reader_reuse")
         one = dict(case, threads=t)
